@@ -180,6 +180,15 @@ def run(seed, tier, lean) -> Result:
     res.violations.extend(genexec.generate_column('C02', res, third, edges='exact', lookups=True))
     return res
 
+def genexec_measure(seed: int, n: int) -> dict:
+    """tools/genexec_seeded.py: the cases of the quick check on (mutated) implementation / hand model / regenerated code"""
+    rnd = random.Random(seed); cases = []
+    for i in range(n):
+        r = random.Random(rnd.getrandbits(48))
+        spec = LangGen(r, knobs={'exist_w': 3}).gen()
+        cases.append((spec, gen_model(r, spec, colon_names=(i % 3 == 0)), (seed * 1000003 + i) if i % 3 != 1 else None, 0.8))
+    return genexec.generate_measure(cases, edges='exact')
+
 def replay(path):
     r = json.load(open(path))
     v = check_case(r['spec'], r['inst'], None, churn_seed=r.get('churn_seed'))
